@@ -44,9 +44,10 @@ type fgen struct {
 	g  *hist.Gen
 	rt *rapid.T
 	// governance scenario (price option change): proposal id, stage
-	propID   governance.ProposalID
-	propStep int
-	propCfg  string
+	finalizePooled int // blocks after the vote in which a PROPOSAL_FINALIZE sat in the mempool
+	propID         governance.ProposalID
+	propStep       int
+	propCfg        string
 }
 
 func (f *fgen) next() int64 { return f.w.C.Height + 1 }
@@ -345,10 +346,28 @@ func (f *fgen) govStep() ([]txgen.Tx, bool) {
 		}
 		return out, len(out) > 0
 	case 3:
-		f.propStep = 0 // the next block finalises; a further proposal may follow
-		return nil, false
+		f.propStep = 0 // this block finalises (at its end); a further proposal may follow
+		// names are renewed / created in the block whose end applies the new price: they are still priced by the old one
+		var out []txgen.Tx
+		if tx, ok := f.renew(); ok {
+			out = append(out, tx)
+		}
+		if f.u.N(2, "gv-create-in-window") == 0 {
+			out = append(out, f.create())
+		}
+		return out, len(out) > 0
 	}
 	return nil, false
+}
+
+// poolFinalize returns a PROPOSAL_FINALIZE for the price-option proposal that is being voted on or has just passed:
+// anybody may send it, it costs nothing, and a node's mempool checks it while the block hooks have not finalised yet.
+func (f *fgen) poolFinalize() ([]byte, bool) {
+	if f.propID == "" || (f.propStep != 3 && f.propStep != 0) {
+		return nil, false
+	}
+	u := f.w.G.U.Users[f.u.N(len(f.w.G.U.Users), "gv-pool-signer")]
+	return txgen.ProposalFinalize(u, f.propID, u.Addr, f.w.Fee, f.w.Memo()).Bytes, true
 }
 
 func bigS(s string) *big.Int { b, _ := new(big.Int).SetString(s, 10); return b }
